@@ -11,7 +11,7 @@ RULE = ("Compositions are generated as letter->count tables satisfying premise 1
         "tables (protein-only fraction exactly 1/4 with the remainder on one letter), then laid out as 2..40 sequences in "
         "a drawn order with drawn names; observed through kalign_arr_to_msa (array) and the FASTA/MSF/Clustal readers, "
         "also as gapped presentations (up to 95% gap characters). Oracle: reported biotype == expected kind, and equal "
-        "after permuting and renaming the sequences. extra(): boundary compositions enumerated exhaustively for all "
+        "after permuting and renaming the sequences; for inputs of <= 300 residues the run must accept the alignment type of the expected kind and reject the other. extra(): boundary compositions enumerated exhaustively for all "
         "(protein-only letter, filler letter) pairs. Non-trivial = >= 2 distinct letters; distinct by composition+layout hash.")
 ASSUMPTIONS = ["compositions satisfying neither premise are not judged",
                "letters kalign's readers drop (non-alphabetic) are not residues"]
@@ -151,6 +151,20 @@ def check(case):
         return engine.violation({"what": "composition satisfying the %s premise reported as biotype %d / %d (0=protein,1=dna,2=undef)" % (want, b1, b2),
                                  "residues": tot, "protein_only": po, "via": case["via"], "gapfrac": case["gapfrac"]},
                                 classes=cl, finding=fid)
+    # acceptance of --type dna / --type protein must agree with the detected kind (small inputs only, to bound the cost)
+    if tot <= 300 and len(seqs) >= 2 and case["via"] in ("arr", "fasta"):
+        for t, tkind in ((0, "dna"), (3, "protein")):
+            try:
+                kal.align_named(case["names"], seqs, {"type": t, "threads": 1})
+                accepted = True
+            except kal.Rejected:
+                accepted = False
+            except kal.Failure as f:
+                return engine.violation({"what": "process failure with type %d" % t, **f.detail()}, kind="crash")
+            if accepted != (tkind == want):
+                return engine.violation({"what": "%s input: alignment type '%s' was %s" % (want, tkind, "accepted" if accepted else "rejected"),
+                                         "seqs": [s[:40] for s in seqs[:3]]}, classes=cl)
+        cl.append("type_acceptance_checked")
     letters = set(c for s in seqs for c in s.upper())
     return engine.ok(len(letters) >= 2, cl, {"via": case["via"], "want": want, "residues": tot, "protein_only": po,
                                              "seqs": [s[:40] for s in seqs[:3]], "gapfrac": case["gapfrac"]})
